@@ -261,6 +261,8 @@ def build_for(case):
     fields = sorted(scenario['supply'])
 
     def build(arena):
+        # (some scenarios run on a clock that starts below zero and crosses it)
+        arena.start = [-1.5, -1, -0.5][case['index'] % 3] if case['index'] % 11 == 7 else 0
         if scenario['kind'] == 'capacities':
             resource = Capacities(**scenario['supply'])
         else:
